@@ -2,6 +2,7 @@
 import concurrent.futures as cf
 import importlib
 import json
+import os
 import random
 import re
 import subprocess
@@ -72,11 +73,26 @@ def reconstruct_py(dbdir):
     return zones, rules
 
 
+def seeds_ordering_a_set_differently(words):
+    """Two PYTHONHASHSEED values under which a Python set of `words` iterates in different orders (tzcompiler.py walks
+    set(args.action.split(','))), found by asking fresh interpreters; falls back to the default pair."""
+    seen = {}
+    for sd in range(1, 40):
+        p = subprocess.run([sys.executable, "-c", "import sys; print(list(set(sys.argv[1:])))"] + list(words), capture_output=True, text=True,
+                           env={**os.environ, "PYTHONHASHSEED": str(sd)})
+        seen.setdefault(p.stdout.strip(), str(sd))
+        if len(seen) >= 2:
+            a, b = list(seen.values())[:2]
+            return a, b
+    return "1", "987654"
+
+
 def run_twice(job):
     """Two tzcompiler.py subprocesses that differ in hash seed, working directory and output directory."""
-    indir, scope, lang, action, work, tag, sy, uy = job
+    indir, scope, lang, action, work, tag, sy, uy = job[:8]
+    seeds = job[8] if len(job) > 8 else ("1", "987654")
     outs = []
-    for k, (seed, cwd) in enumerate((("1", None), ("987654", "/"))):
+    for k, (seed, cwd) in enumerate(((seeds[0], None), (seeds[1], "/"))):
         out = work / ("det-%s-%d" % (tag, k))
         p = tzpipe.run_tzcompiler(indir, out, scope, lang, action=action, start_year=sy, until_year=uy,
                                   env_extra={"PYTHONHASHSEED": seed}, cwd=cwd)
@@ -119,6 +135,16 @@ def run(tier):
         combos += [("mutant%d" % i, sc, lang, "zonedb") for i in range(6) for sc in ("basic", "extended") for lang in ("arduino", "python")]
     for name, scope, lang, action in combos:
         jobs.append((indirs[name], scope, lang, action, work, "%s-%s-%s-%s" % (name, scope, lang, action), 2000, 2050))
+    # several actions in one invocation: the two runs use hash seeds that walk the action set in different orders, and each
+    # file must also equal the one a single-action invocation writes (one generator must not alter what the next one reads)
+    multi = [("features", "extended", "arduino", "zonedb,tzdb"), ("features", "basic", "arduino", "zonedb,zonelist,tzdb")]
+    singles = [("features", "extended", None, "tzdb"), ("features", "basic", None, "tzdb"), ("features", "basic", "arduino", "zonedb"),
+               ("features", "basic", None, "zonelist")]
+    for name, scope, lang, action in multi:
+        jobs.append((indirs[name], scope, lang, action, work, "%s-%s-%s-%s" % (name, scope, lang, action), 2000, 2050,
+                     seeds_ordering_a_set_differently(action.split(","))))
+    for name, scope, lang, action in singles:
+        jobs.append((indirs[name], scope, lang, action, work, "%s-%s-%s-%s" % (name, scope, lang, action), 2000, 2050))
     outputs = {}
     with cf.ThreadPoolExecutor(max_workers=N // 2) as ex:
         for job, outs in ex.map(run_twice, jobs):
@@ -145,6 +171,22 @@ def run(tier):
                     diff = [(i, x, y) for i, (x, y) in enumerate(zip(ca, cb)) if x != y][:3]
                     v.violation("c20:nondeterministic-output:%s" % f, "the same source compiled twice gives different files",
                                 {"job": tag, "file": f, "first_diffs": diff})
+    for name, scope, lang, action in multi:
+        mt = "%s-%s-%s-%s" % (name, scope, lang, action)
+        if mt not in outputs:
+            continue
+        for act in action.split(","):
+            st = "%s-%s-%s-%s" % (name, scope, (lang if act == "zonedb" else None), act)
+            if st not in outputs:
+                continue
+            for f in sorted(x.name for x in outputs[st].iterdir()):
+                counters["multi_action_files_compared"] = counters.get("multi_action_files_compared", 0) + 1
+                fm = outputs[mt] / f
+                a, b = (outputs[st] / f).read_text(), (fm.read_text() if fm.exists() else "")
+                same = (canon_json(a) == canon_json(b)) if f.endswith(".json") else (canon_text(a) == canon_text(b))
+                if not same:
+                    v.violation("c20:multi-action-output-differs:%s" % f, "a file written by an invocation with several --action values differs from the one a single-action invocation writes",
+                                {"multi": mt, "single": st, "file": f})
     # ------------------------------------------------------------------ B/C/D: python tables, zone list, counters
     for name, scope in (("recon-x", "extended"), ("tz2025b", "extended"), ("features", "extended"), ("features", "basic")) + ((("recon-b", "basic"),) if not q else ()):
         tag = "%s-%s-python-zonedb" % (name, scope)
@@ -358,9 +400,11 @@ def run(tier):
         zmod = importlib.import_module("zonedbpy.zone_infos")
         if set(zmod.ZONE_INFO_MAP) != set(names):
             v.violation("c20:zonedbpy-zone-set", "checked-in python database map differs from its own recorded zones", {})
-        infos = {z: zmod.ZONE_INFO_MAP[z] for z in (names if not q else rng.sample(names, 120)) if z in zmod.ZONE_INFO_MAP}
+        # every zone in both tiers (a hand edit may concern one rule of one zone for one hour: seeded change C20q); quick uses a coarser grid,
+        # the probes at every zic breakpoint (-60, -1, 0, +59 s) are the same
+        infos = {z: zmod.ZONE_INFO_MAP[z] for z in names if z in zmod.ZONE_INFO_MAP}
         items = [{"mode": "zic", "prop": "c20", "zone_infos": sh, "segments": {z: psegs[z] for z in sh}, "start_year": 2000, "until_year": 2038,
-                  "grid_s": 86400 * 2 + 3600 * 5} for sh in c03lib.shard_dict(infos, N)]
+                  "grid_s": (86400 * 11 + 3600 * 5) if q else (86400 * 2 + 3600 * 5)} for sh in c03lib.shard_dict(infos, N)]
         m = c03lib.run_py_workers(items, work / "pydb")
         for f in m["failed"]:
             v.inconclusive_because("zonedbpy worker failed: " + f["stderr"][-300:])
